@@ -80,24 +80,25 @@ def run(chk, ctx):
            'frame type %s, channel %s, size = payload length' %
            (T.show(env['type']), T.show(env['channel'])), site=site_m)
     # fixed part
-    fixed = parts[0] if parts else None
-    fixed_ok = isinstance(fixed, Sym) and fixed.op == 'pack'
     basic_id = st_it.class_attr(prog.cls('commands.Basic'), 'frame_id')
-    wfmt = None
-    if fixed_ok:
-        wfmt = T.fmt(fixed.args[0])
-        layout = [(off, f[1], f[2], f[3]) for off, f in wfmt.offsets()]
-        want = [(0, 2, False, 'int'), (2, 1, None, 'pad'),
-                (3, 1, None, 'pad'), (4, 8, False, 'int')]
-        fixed_ok = layout == want and wfmt.order == 'big' and \
-            fixed.args[1][0] == basic_id == 60 and \
-            fixed.args[1][1] is Sym('field', 'body_size')
+    ff_ = L.fixed_fields(parts, [2, 2, 8])
+    fixed_ok = False
+    fixed = None
+    rest_parts = parts[1:]
+    if ff_ is not None:
+        fixed, rest_parts = ff_
+        fixed_ok = fixed[0] == basic_id == 60 and fixed[1] == 0 and \
+            isinstance(fixed[2], tuple) and fixed[2][0] is False and \
+            fixed[2][1] == 'big' and \
+            fixed[2][2] is Sym('field', 'body_size')
     chk.ob('C02.H', 'marshal fixed part', fixed_ok,
-           'written %s' % T.show(fixed)[:120],
+           'written %s' % (T.show(tuple(
+               x if not isinstance(x, tuple) else x[2] for x in fixed))[:120]
+               if fixed is not None else T.show(tuple(parts[:2]))[:120]),
            detail={'expected': "u16 class id 60, two zero octets, u64 body "
                    "size, big-endian"}, site=site_m)
     # flag words
-    rest = parts[1:]
+    rest = list(rest_parts)
     flagpacks = []
     while rest and isinstance(rest[0], Sym) and rest[0].op == 'pack':
         flagpacks.append(rest.pop(0))
